@@ -320,9 +320,11 @@ def run_tree(u):
         rep.paths += 1; rep.add_interp(I)
         ob = Obligations(rep, prover, label + "path%d " % rep.paths)
         pc = list(ctx.pc)
-        def on_sat(model, V=V, G=G):
+        def on_sat(model, V=V, G=G, moved=moved):
             vals = {"%s%d" % (c, i): float(model_value(model, t)) if z3.is_expr(t) else float(t) for (i, c), t in V.items()}
             vals['G'] = float(model_value(model, G) or 1.0) or 1.0
+            if moved is not None:
+                for (i_, c_), t_ in moved[0].items(): vals['%s%d_new' % (c_, i_)] = float(model_value(model, t_) or 0.0)
             ok, detail = native_tree(u, vals)
             return ok, 'C15:tree', detail, dict(kind='tree', unit=u, vals=vals)
         pos = [dict(x=V[(i, 'x')], y=V[(i, 'y')], z=V[(i, 'z')], m=V[(i, 'm')]) for i in range(N)]
@@ -421,9 +423,22 @@ def _native_tree(u, vals):
                 for phase in range(2 if u.get('move') else 1):
                     if phase == 1:
                         for i in range(ns.get('N')):
-                            pp = ns.particle(i); pp.set('x', -pp.get('x') * 0.9); pp.set('y', pp.get('y') * 0.5 + 1.0)
+                            pp = ns.particle(i)
+                            if tv and any(k_.endswith('_new') for k_ in tv):
+                                for c_ in ('x', 'y', 'z'):
+                                    if '%s%d_new' % (c_, i) in tv: pp.set(c_, tv['%s%d_new' % (c_, i)])
+                            else:
+                                pp.set('x', -pp.get('x') * 0.9); pp.set('y', pp.get('y') * 0.5 + 1.0); pp.set('z', 0.8 * pp.get('z') - 0.7)
                         if grav == 'TREE': ns.call('reb_simulation_update_tree')
-                    if grav == 'TREE': ns.call('reb_simulation_update_tree_gravity_data')
+                    if grav == 'TREE':
+                        ns.call('reb_simulation_update_tree_gravity_data')
+                        # every particle must lie inside the leaf cell it points to (native tree read through the particle's cell pointer)
+                        for i in range(ns.get('N')):
+                            pp = ns.particle(i); cptr = pp.get('c')
+                            if not cptr: bad.append(('particle %d has no leaf' % i,)); continue
+                            cell = NView(N_, cptr, 'reb_treecell')
+                            if cell.get('pt') != i or any(abs(pp.get(a_) - cell.get(a_)) > cell.get('w') / 2 * (1 + 1e-12) for a_ in ('x', 'y', 'z')):
+                                bad.append(('phase %d: particle %d at %r is not inside its leaf cell centre %r width %r (leaf holds index %r)' % (phase, i, tuple(pp.get(a_) for a_ in ('x', 'y', 'z')), tuple(cell.get(a_) for a_ in ('x', 'y', 'z')), cell.get('w'), cell.get('pt')),))
                     ns.call('reb_calculate_acceleration')
                     out.append(sorted((round(ns.particle(i).get('m'), 12), ns.particle(i).get('ax'), ns.particle(i).get('ay'), ns.particle(i).get('az')) for i in range(ns.get('N'))))
                 res.append(out)
@@ -453,7 +468,7 @@ def main():
     us = [dict(what='wrap', kind='PERIODIC', W=W, N=1), dict(what='wrap', kind='SHEAR', W=W, N=1), dict(what='open', N=2), dict(what='ghost')]
     us += [dict(what='tree', N=2, sep=2, axes=('x',), roots=(1, 1, 2), fixed=[dict(y='1/3', z='-11/3'), dict(y='4/3', z='13/3')]),
            dict(what='tree', N=3, sep=2, axes=('x',), roots=(1, 2, 3), fixed=[dict(y='-11/3', z='-31/3'), dict(y='13/3', z='1/3'), dict(y='10/3', z='31/3')], move=True),
-           dict(what='tree', N=2, sep=2, axes=('x', 'y')), dict(what='tree', N=2, sep=2, axes=('x',), move=True), dict(what='tree', N=3, sep=2, axes=('x',)), dict(what='tree', N=2, sep=2, axes=('x',), theta=True)]
+           dict(what='tree', N=2, sep=2, axes=('x', 'y')), dict(what='tree', N=2, sep=2, axes=('x',), move=True), dict(what='tree', N=2, sep=2, axes=('y',), move=True), dict(what='tree', N=2, sep=2, axes=('z',), move=True), dict(what='tree', N=3, sep=2, axes=('x',)), dict(what='tree', N=2, sep=2, axes=('x',), theta=True)]
     if tier == 'thorough': us += [dict(what='tree', N=3, sep=2, axes=('x',), theta=True, t_ms=30000), dict(what='tree', N=2, sep=1, axes=('x', 'y'), max_paths=20000), dict(what='tree', N=2, sep=2, axes=('x', 'y'), theta=True, max_paths=20000)]
     if tier == 'thorough': us += [dict(what='wrap', kind='PERIODIC', W=1, N=2), dict(what='open', N=3)]
     rep = run_units(us, worker)
